@@ -321,6 +321,12 @@ def run_sync_scenario(case):
                         reasons = {}
                         for p_ in pr:
                             rec = [f for f in c_int.files if f.sub == p_["sub"] and c_int.disk_name(f.disk).decode() == a.disk_names[p_["disk"]]]
+                            if not rec:
+                                # the name may be recorded as a hard link of another name of the same inode: its blocks are
+                                # that file's blocks
+                                for l_ in c_int.links:
+                                    if l_["sub"] == p_["sub"] and l_["kind"] == "hardlink" and c_int.disk_name(l_["disk"]).decode() == a.disk_names[p_["disk"]]:
+                                        rec = [f for f in c_int.files if f.sub == l_["linkto"] and f.disk == l_["disk"]]
                             why = "unexplained"
                             if rec:
                                 poss = [b[0] for b in rec[0].blocks]
@@ -329,6 +335,11 @@ def run_sync_scenario(case):
                                 elif torn_pos is not None and a.nlev == 1 and torn_pos in poss:
                                     why = "torn-parity-block-with-single-parity"
                             reasons.setdefault(why, []).append(p_)
+                            if why == "unexplained" and os.environ.get("VERIF_DEBUG"):
+                                print("DEBUG unexplained", p_, "torn_pos", torn_pos, "blocks", rec[0].blocks if rec else None, "mode", mode, ptype)
+                                print("   last events:", [(e.kind, getattr(e, "op", None), getattr(e, "cls", None), getattr(e, "off", None), getattr(e, "len", None), getattr(e, "ret", None), getattr(e, "action", None)) for e in ev2[-6:]])
+                                for pos in (rec[0].blocks if rec else []):
+                                    print("   stripe", pos[0], [(c_int.disk_name(e[0]), e[1], e[2].sub if e[2] else None, e[4]) for e in sm.get(pos[0], [])])
                         for why, ps in reasons.items():
                             res["violations"].append(("adds-only:earlier-file-lost/" + why, "%s: lost %s, fix rc=%s: %s" %
                                                       (label, [a.disk_names[d] for d in lost], rf.rc, evidence.jsonable(ps[:3])), replay))
